@@ -359,13 +359,13 @@ func classify(v *report.Violation) {}
 
 func TestCheck(t *testing.T) {
 	run := report.New("C17", "model_checking")
-	run.Rule = "every peer set / configuration order / AddPeer order / RemovePeer / health vector over a stated finite id set evaluated on real PeerPools; BFS over Allocate/Release/Get at every node + node down/up on 3 real PeerPools joined in memory"
+	run.Rule = "every peer set / configuration order / AddPeer order / RemovePeer / health vector over a stated finite id set evaluated on real PeerPools; BFS over Allocate/Release/Get at every node + node down/up on 3 real PeerPools joined in memory; BFS over AddPeer/RemovePeer histories on one node compared after every step with a freshly configured PeerPool of the same membership"
 	run.Assumptions = []string{
 		"every node's NodeID is one of the peer names and all nodes are given the same peer set (a node whose NodeID is not literally in its --peers list sees a different set: outside the stated bounds)",
 		"system part: a node going down/up is detected by every running node (three health-check rounds through the real checkPeer) before the next request; requests enter only at running nodes",
 		"subscriber ids are the stated finite set, not all strings",
 	}
-	ms := sysModels(run)
+	ms := append(sysModels(run), membershipModels(run)...)
 	if *report.FlagReplay != "" {
 		os.Exit(replay(run, ms))
 	}
